@@ -51,6 +51,8 @@ class _Repo:
 def _build_child(args):
     repo, variant = args
     feats, release, rustflags, env, tag = VARIANTS[variant]
+    for k in [k for k in os.environ if k.startswith("CARGO_PROFILE_") or k in ("RUSTFLAGS", "CARGO_ENCODED_RUSTFLAGS")]:
+        del os.environ[k]
     os.environ.update(FAST_ENV)
     os.environ.update(env)
     if rustflags:
@@ -69,7 +71,7 @@ def build_variants(ctx, variants):
     variants = list(variants)
     res = {}
     mp = multiprocessing.get_context("fork")
-    with mp.Pool(min(len(variants), 4)) as pool:
+    with mp.Pool(min(len(variants), 4), maxtasksperchild=1) as pool:
         for variant, path, out, secs in pool.imap_unordered(_build_child, [(ctx.repo, v) for v in variants]):
             if not path:
                 raise RuntimeError("harness build failed (bin layout, variant %s):\n%s" % (variant, out))
@@ -430,9 +432,11 @@ def union_cases(sh, rng, tier):
         chosen = set()
         for p in range(n):
             partners = [q for q in range(n) if sh.pair_ok(p, q)]
-            chosen.add((p, rng.choice(partners)))
+            if partners:
+                chosen.add((p, rng.choice(partners)))
             partners = [q for q in range(n) if sh.pair_ok(q, p)]
-            chosen.add((rng.choice(partners), p))
+            if partners:
+                chosen.add((rng.choice(partners), p))
         for p in range(sh.ncore):
             chosen.add((p, p))
         chosen = sorted(chosen)
@@ -526,6 +530,11 @@ def compare(case, impl, model):
         if k == "st" or k in IMPL_ONLY:
             continue
         mk = model_field(case, k)
+        if case.kind == "thin" and k in THIN_RAW_ACCESSORS and v == impl.get("deref") and model.get(mk) != v:
+            # the model mirrors the known deviation (raw ThinArc pointer = block address).  If the crate
+            # starts returning the value's address — what the property demands — that is not a
+            # disagreement to alarm about: the monitor still checks the address and the round trip.
+            continue
         if mk not in model:
             bad.append((field_prop(case, k), k, v, "<model prints no %s>" % mk))
         elif model[mk] != v:
